@@ -19,6 +19,9 @@ def run(rep, idx, tier):
     rep.require("C09.2", 3)
     rep.require("C09.3", 1)
     rep.require("C09.4", 1)
+    rep.require("C09.5", 1)
+    from . import glue as _g5
+    _g5.late_sized_signals(rep, "C09.5", idx, "wishbone/bus:Arbiter", ("_intrs",))
     from . import glue as _g
     # the grant register starts at initiator 0 and takes part in the reset (fairness is stated from reset)
     _g.reset_discipline(rep, "C09.4", idx, ["wishbone/bus:Arbiter"], allowed_init=[(("Arbiter", "intr_bus_stall"), "1")])
